@@ -129,7 +129,7 @@ package store
 //@   requires DInv(s) && in32(index) && count >= 0.0
 //@   ensures DInv(s)
 //@   ensures s.count == old(s.count) + count
-//@   hint ASumUpdate(contents(s.bins), 0, len(s.bins), arrayIndex, s.bins[arrayIndex] + count)
+//@   hint ASumUpdate(contents(s.bins), 0, len(s.bins), index - s.offset, s.bins[index - s.offset] + count)
 //@   ensures view: forall k int :: DView(s, k) == old(DView(s, k)) + (k == index ? count : 0.0)
 //@   ensures alias: arr(s.bins) == old(arr(s.bins)) || fresh(arr(s.bins))
 //@   modifies s, arr(s.bins)
